@@ -130,9 +130,8 @@ func c05(src []rune, prop int) {
 		}
 	}
 	cmds2, err2 := parseAll([]rune(out1))
-	if prop == 5 {
-		nd.Assert(err2 == nil, "the printed text is accepted by the parser")
-	}
+	// C05's obligation; C18's fix-point presupposes it
+	nd.Assert(err2 == nil, "the printed text is accepted by the parser")
 	if err2 != nil {
 		nd.Observe(out1)
 		return
@@ -202,3 +201,31 @@ func C05_Default() {
 
 // ContInHeredoc exports contInHeredoc for cmd/refdiff.
 func ContInHeredoc(src []rune) bool { return contInHeredoc(src) }
+
+// C05_ArithLines / C18_ArithLines: arithmetic commands and expansions whose
+// parts are separated by nothing or a blank, one of the four separators being
+// a newline followed by k blanks (k = 0..9, so that a continuation line starts
+// before, at and after the column where the previous line ended).
+func arithLines() []rune {
+	brk := nd.Choice(4) // the separator that is a line break followed by k blanks
+	nl := "\n"
+	for k := nd.Choice(10); k > 0; k-- {
+		nl += " "
+	}
+	other := []string{"", " "}[nd.Choice(2)]
+	sep := func(i int) string {
+		if i == brk {
+			return nl
+		}
+		return other
+	}
+	toks := [][3]string{{"a", "+", "-1"}, {"(a)", "*", "(b)"}}[nd.Choice(2)]
+	e := sep(0) + toks[0] + sep(1) + toks[1] + sep(2) + toks[2] + sep(3)
+	if nd.Choice(2) == 0 {
+		return []rune("((" + e + "))")
+	}
+	return []rune("x $((" + e + ")) y")
+}
+
+func C05_ArithLines() { c05(arithLines(), 5) }
+func C18_ArithLines() { c05(arithLines(), 18) }
